@@ -157,6 +157,16 @@ def generate(tier, seed):
             dist["junk_first_column"] = dist.get("junk_first_column", 0) + 1
         ad = engine.adapter_T(text) if rnd.random() < 0.5 else engine.adapter_Ft(text)
         cases.append(engine.case("eng", sp_pol, ad, "-", ["?ga:p", "?ga:g", "LD", "?ga:p", "?ga:g"]))
+        in_class = all(v != "" and v == v.strip() and '"' not in v and "\n" not in v and "\r" not in v and not v.startswith("#")
+                       for r in rows for v in r[1:])
+        if ad.startswith("Ft@") and in_class:
+            # ... and RENDERED back by the file adapter (save_policy): what a fresh adapter reads from the rendered file, and
+            # what a reload yields, are again exactly those rows - policy rules and role rules alike, comma-bearing values
+            # included. Only for rows over the values save_policy writes losslessly (C09's class, `csv_safe_r` of Model/Csv.v:
+            # a value with edge blanks is kept by a QUOTED column of the source text but written unquoted by csv_field -
+            # `c16q_unquoted_edge_blank_lost` - which the properties exclude)
+            cases.append(engine.case("eng", sp_pol, ad, "-", ["?ga:p", "?ga:g", "LD", "?ga:p", "?ga:g", "SV", "?rv", "LD", "?ga:p", "?ga:g"]))
+            dist["rendered_back"] = dist.get("rendered_back", 0) + 1
         dist["policy_texts"] += 1
     # (b) model layouts
     K = engine.kinds(("AO", "DO", "AD", "PR"))
